@@ -22,7 +22,7 @@ FORMULAS = {
     'F7': '=SUM(A1:B2,5)', 'F8': '=SUM(A1:B12)', 'F9': '=AVERAGE(A1:B2)', 'F10': '=MIN(A1:B2)', 'F11': '=MAX(A1:B2)', 'F12': '=COUNT(A1:B2)',
     'F13': '=COUNT(A1:B2,C1)', 'F14': '=COUNTBLANK(A1:B2)', 'F15': '=COUNTBLANK(A1:B12)', 'F16': '=AND(A1,B1,C1)', 'F17': '=OR(A1,B1,C1)',
     'F18': '=SUM(A1:B1)', 'F19': '=SUM(A1:A2)', 'F20': '=SUM(A1:A2)+SUM(B1:B2)', 'F21': '=MIN(A1,B1:B2)', 'F22': '=MAX(5,A1:A2)',
-    'F23': '=AVERAGE(A1,B1:B2)', 'F24': '=COUNTBLANK(A1,B1:B2)', 'F25': '=AND(A1:B1,C1)', 'F26': '=SUM(A1:B2)+SUM(T!A1:B2)',
+    'F23': '=AVERAGE(A1,B1:B2)', 'F24': '=COUNTBLANK(A1,B1:B2)', 'F25': '=AND(A1:B1,C1)', 'F26': '=SUM(A1:B2)+SUM(T!A1:B2)', 'F27': '=SUM(A1:B2,A1:B2)', 'F28': '=AVERAGE(A1,A1,B1)', 'F29': '=COUNTBLANK(A1:B1,A1:B1)', 'F30': '=SUM(A1,A1,$A$1)',
 }
 S = {'A1': 1, 'A2': 2, 'B1': 3, 'B2': 4, 'C1': 7, 'A3': 9}
 T = {'A1': 10, 'A2': 20, 'B1': 30, 'B2': 40, 'D1': '=SUM(A1:B2)', 'D2': '=COUNTBLANK(A1:B2)', 'D3': '=MAX(A1:B2)'}
@@ -106,6 +106,9 @@ def run(report, tier, seed):
     add('sum_row', 'F18', 'sum(nums([a1, b1]))')
     add('sum_column', 'F19', 'sum(nums([a1, a2]))')
     add('sum_split_metamorphic', 'F20', f'sum(nums({vec}))')
+    add('sum_same_area_twice', 'F27', f'2 * sum(nums({vec}))')
+    add('sum_same_cell_three_spellings', 'F30', 'sum(nums([a1, a1, a1]))')
+    add('countblank_same_area_twice', 'F29', 'len([v for v in [a1, b1, a1, b1] if v is None or v == ""])')
     add('count_rect', 'F12', f'len(nums({vec}))')
     add('count_rect_and_cell', 'F13', f'len(nums({vec})) + 1')
     add('countblank_rect', 'F14', f'len([v for v in {vec} if v is None or v == ""])')
@@ -123,7 +126,8 @@ def run(report, tier, seed):
     ''', encodes=enc, requires="KALL is not None", timeout=T * 2)
     # AVERAGE / MIN / MAX: empty fold -> an error value or an exception, never a number
     for name, cell, fold, vs in (('average_rect', 'F9', None, vec), ('min_rect', 'F10', 'min(n)', vec), ('max_rect', 'F11', 'max(n)', vec),
-                                 ('min_scalar_and_area', 'F21', 'min(n)', '[a1, b1, b2]'), ('average_scalar_and_area', 'F23', None, '[a1, b1, b2]')):
+                                 ('min_scalar_and_area', 'F21', 'min(n)', '[a1, b1, b2]'), ('average_scalar_and_area', 'F23', None, '[a1, b1, b2]'),
+                                 ('average_same_cell_twice', 'F28', None, '[a1, a1, b1]')):
         # AVERAGE is compared through got * count == sum (no symbolic division in the oracle)
         cmp_ = f"o == ('val', {fold})" if fold else "o[0] == 'val' and o[1][0] == 'AVG' and sorted(o[1][1]) == sorted(n)"
         s.add(name, sig4, pre4, f'''
